@@ -27,7 +27,7 @@ STEP_LIMIT = 3_000_000
 RULE = ("quick: the full product hostile value pool (every entry of vmon/values.py) x targets (builtins, stdlib types, user "
         "subclasses MyInt/MyStr/MyList/MyDict, Enum/IntEnum/mixed Enum, an Enum whose member names collide with other members' "
         "values, Tuple[int,str], a Schema) x the four flag sets {}, no_explicit_cast, no_data_loss, both -- exhaustive over the "
-        "pools. thorough adds seeded generated sources (random numerics in every spelling, dates/datetimes/texts with and without "
+        "pools. Both tiers add seeded generated sources (quick 3e4, thorough 4e5) (random numerics in every spelling, dates/datetimes/texts with and without "
         "time parts, byte strings valid/invalid UTF-8, nested containers of 0..3 elements). Non-trivial = a restricted run "
         "accepted (so at least one of the clauses (a)(b)(c) was decided); distinct = (target, source class, flag set, clause).")
 ASSUMPTIONS = [
@@ -101,8 +101,7 @@ def setup(ctx):
 
 def n_cases(tier):
     n = len(_targets()) * len(V.POOL)
-    if tier == "thorough":
-        n += 400000
+    n += 400000 if tier == "thorough" else 30000   # generated sources (quick: a sample)
     return n
 
 
@@ -154,6 +153,9 @@ def gen_source(rng):
             return d.isoformat().encode()
         if sp == 8:
             return d.replace(tzinfo=rng.choice([V.TZ_P, V.TZ_N, dt.timezone.utc]))
+        if rng.random() < 0.5:
+            # a time part that is non-zero only below the second / spelled with a space or an offset
+            return rng.choice([d.isoformat(sep=" "), d.isoformat() + "+00:00", d.strftime("%Y-%m-%d %H:%M:%S.%f")])
         return d.strftime("%Y/%m/%d")
     if r < 0.62:
         return rng.choice([b"abc", b"\xff", b"a\xffb", "é".encode(), b"\xc3", b"1", b"true", bytearray(b"\xfe1"), memoryview(b"ok"),
